@@ -449,7 +449,7 @@ func strayEntries(root string) []string {
 }
 
 func TestC33RoundTrip(t *testing.T) {
-	pbt.Run(t, pbt.Spec{ID: "C33", Sub: "roundtrip", Quick: 2000, Thorough: 10000,
+	pbt.Run(t, pbt.Spec{ID: "C33", Sub: "roundtrip", Quick: 2000, Thorough: 6000,
 		Rule: "valid namespaces from the C10 generator; user and backend credentials replaced by raw byte strings (ASCII punctuation, arbitrary bytes, invalid UTF-8, NUL/control bytes, cipher block boundaries, padding look-alikes, surrounding white space); keys of 16/24/32 bytes (90%) or invalid lengths; store prefixes and namespace names of several shapes; Verify -> Encrypt -> UpdateNamespace -> LoadNamespace/LoadNamespaces through an in-memory client and through LocalClient; non-trivial = round trip completed with at least one credential that is not valid UTF-8",
 		Floor: 0.3}, genRT, checkRT)
 }
@@ -757,7 +757,7 @@ func checkPaths(c pathCase) (o pbt.Outcome) {
 }
 
 func TestC33Paths(t *testing.T) {
-	pbt.Run(t, pbt.Spec{ID: "C33", Sub: "paths", Quick: 2000, Thorough: 10000,
+	pbt.Run(t, pbt.Spec{ID: "C33", Sub: "paths", Quick: 2000, Thorough: 6000,
 		Rule: "1-8 LocalClient / Store operations on a fresh storage directory with paths and namespace names built from '..', '.', empty, dotted, absolute, over-long components and the characters the client forbids, under several store prefixes; the resolved path is computed first (FullNamespacePath / FullDirPath) and must lie in the storage directory, then the operation runs and the storage directory's parent must hold nothing else; non-trivial = some path contains '..' or is absolute",
 		Floor: 0.5}, genPaths, checkPaths)
 }
